@@ -1093,3 +1093,10 @@ V("C12", "class_route_also_writes_instance_like_store", "fire", "R12.m", (Z, """
                 # When setting a Parameter before calling super."""))
 V("C14", "constant_identity_replaced_by_equality_in_model", "fire", "R14.*", (Z, "                if val is not _old:\n                    raise TypeError(\"Constant parameter", "                if val is not _old and not obj._param__private.initialized:\n                    raise TypeError(\"Constant parameter"))
 V("C03", "no_dispatch_for_class_level_set", "fire", "R03.m", (Z, "        if obj is None:\n            watchers = self.watchers.get(\"value\")\n        elif name in", "        if obj is None:\n            watchers = None\n        elif name in"))
+V("C14", "benign_readonly_checked_before_validation", "benign", None, (Z, "        self._validate(val)\n\n        _old = NotImplemented", "        if self.readonly:\n            raise TypeError(\"Read-only parameter '%s' cannot be modified\" % name)\n        self._validate(val)\n\n        _old = NotImplemented"))
+V("C12", "benign_setter_private_alias", "benign", None, (Z, """                _old = obj._param__private.values.get(name, self.default)
+                obj._param__private.values[name] = val
+        if relink:""", """                private = obj._param__private
+                _old = private.values.get(name, self.default)
+                private.values[name] = val
+        if relink:"""))
